@@ -136,4 +136,38 @@ PROPS = {
         "trusted_base": ["model file: lean/I2P/Crypto16.lean (data flow of encryption.go and blinding.go; primitives abstract)",
                          "model file: lean/I2P/Structs.lean (readLeaseSet2)"],
     },
+    "C06": {
+        "suites": "C06",
+        "assumptions": COMMON_ASSUME + [
+            "signature schemes are abstract in the Lean statement: one law, verify t (pub t sk) m (sign t sk m r) = true; the theorems are about "
+            "data flow (the constructor signs exactly the byte string Verify recomputes from the value)",
+            "keys are generated by the harness from seeds (Ed25519, ECDSA P-256/P-384 via the standard library, DSA and key objects via go-i2p/crypto); "
+            "the independent check of the produced signature uses the Go standard library and go-i2p/crypto (DSA), both outside /repo",
+            "'every signing type the constructor supports': NewRouterInfo, NewEncryptedLeaseSet and CreateOfflineSignature sign with Ed25519-family keys only; "
+            "NewLeaseSet (and NewLeaseSet2) with any types.SigningPrivateKey",
+        ],
+        "trusted_base": ["model file: lean/I2P/Ctor.lean (rule-level and data-flow model of the constructors)", MODEL_FILES],
+    },
+    "C14": {
+        "suites": "C14",
+        "assumptions": COMMON_ASSUME + [
+            "time-dependent expiry checks are excluded: Lease/Lease2.Validate errors that are ErrExpiredLease are ignored, OfflineSignature is judged by ValidateStructure",
+            "a 'documented defect' is a rule named in a Validate doc comment or enforced in its body (key length vs type, counts, flag/offline-block mismatch, "
+            "reserved bits, length-field mismatch, nil fields, zero expiry, zero gateway); rules stated by one layer only for itself (padding length, key-type policy, "
+            "builder payload rules) are recorded as observations, not failures",
+            "for structures with private fields the validator side of a defect is exercised only where a public route (lenient parser, exported fields) can build the defective value",
+            "the Lean model is rule-level: Boolean predicates over shape parameters (counts, lengths, type codes, flags, nil-ness), one conjunct per Go check",
+        ],
+        "trusted_base": ["model file: lean/I2P/Ctor.lean (ctorAccepts / validates / parses per structure; size tables from lean/I2P/Tables.lean)"],
+    },
+    "C02": {
+        "suites": "C02",
+        "assumptions": COMMON_ASSUME + [
+            "the specification is the I2P 0.9.67 common-structures layout as transcribed twice, independently: harness/spec.go (Go) and lean/I2P/Spec/Structs.lean (Lean); "
+            "for MetaLeaseSet the layout documented in /repo/meta_leaseset/meta_leaseset_struct.go is used",
+            "signatures are opaque byte strings for C02 (their validity is C05/C06); ElGamal/DSA key values are generated inside the range the LeaseSet parser checks",
+            "mappings built from Go maps are compared in the specification's canonical order (sorted bytewise by key)",
+        ],
+        "trusted_base": [MODEL_FILES, "spec transcriptions: harness/spec.go, lean/I2P/Spec/Codec.lean, lean/I2P/Spec/Structs.lean, lean/I2P/Tables.lean"],
+    },
 }
